@@ -230,6 +230,15 @@ func changedFields(ev *Evaluator, p *Path, obj *T) []string {
 		}
 		for i := 0; i < st.NumFields(); i++ {
 			f := st.Field(i)
+			// a grouping part held by value (embedded or named, same package): compare its fields one by one
+			if pn, isN := f.Type().(*types.Named); isN && pn.Obj().Pkg() == n.Obj().Pkg() && depth < 3 {
+				if _, isStruct := pn.Underlying().(*types.Struct); isStruct {
+					a0, a1 := ev.faddr(cur0, n, i), ev.faddr(cur1, n, i)
+					a0.Typ, a1.Typ = types.NewPointer(pn), types.NewPointer(pn)
+					walk(a0, a1, depth+1)
+					continue
+				}
+			}
 			a := ev.load(s0, ev.faddr(cur0, n, i), f.Type())
 			b := ev.load(p.State, ev.faddr(cur1, n, i), f.Type())
 			if f.Embedded() && depth == 0 {
@@ -240,7 +249,7 @@ func changedFields(ev *Evaluator, p *Path, obj *T) []string {
 				}
 			}
 			if a != b {
-				out = append(out, canonicalField(n.Obj().Pkg().Name()+"."+n.Obj().Name()+"."+f.Name()))
+				out = append(out, canonicalField(n.Obj().Pkg().Name()+"."+typeCanonName(n.Obj())+"."+f.Name()))
 			}
 		}
 	}
